@@ -11,6 +11,9 @@ Not modelled: `/include` inside A2ML needs the file system; the model answers `e
 returns when the file cannot be read). The second component of the result of `parse_a2ml` (the text with the includes
 merged in) is therefore always the input text and is left out.
 
+The nesting limit (`MAX_NESTING_DEPTH`, `spec_depth`, `check_nesting`; the parameter `depth` of `parse_aml_*`) is
+modelled check by check, in the order of the Rust code: `maxNestingDepth`, `specDepth`, `checkNesting`, `depth`.
+
 Hash maps (`HashMap<String, _>`) are association lists without duplicate keys (`insert` replaces). The code only
 uses `insert`, `get` and (in the dump hook) iteration in sorted key order, none of which observes the hash order.
 -/
@@ -204,6 +207,40 @@ inductive R (α : Type) where
 /-- `dim as usize` of an `i32` (64-bit target) -/
 def dimOf (c : Int) : Nat := if c < 0 then (c + (2 ^ 64 : Nat)).toNat else c.toNat
 
+/-! ## the nesting limit -/
+
+/-- `MAX_NESTING_DEPTH`: how deep A2ML types may be nested (each struct, taggedstruct, taggedunion, array dimension and
+    `( )*` counts as one level) -/
+def maxNestingDepth : Nat := 100
+
+mutual
+/-- `spec_depth`: the number of nesting levels of a type -/
+def specDepth : Spec → Nat
+  | .none => 0
+  | .array of _ => specDepth of + 1
+  | .seq of => specDepth of + 1
+  | .struct items => specDepthL items + 1
+  | .taggedStruct items => specDepthT items + 1
+  | .taggedUnion items => specDepthT items + 1
+  | .int _ => 1
+  | .float => 1
+  | .double => 1
+  | .enum _ => 1
+
+/-- `items.iter().map(spec_depth).max().unwrap_or(0)` -/
+def specDepthL : List Spec → Nat
+  | [] => 0
+  | s :: rest => max (specDepth s) (specDepthL rest)
+
+/-- `items.values().map(|tagged| spec_depth(&tagged.item)).max().unwrap_or(0)` -/
+def specDepthT : List (Tagged Spec) → Nat
+  | [] => 0
+  | t :: rest => max (specDepth t.item) (specDepthT rest)
+end
+
+/-- `check_nesting`: a type of depth `inner` is used inside `depth` enclosing levels; `true` = `Ok(())` -/
+def checkNesting (depth inner : Nat) : Bool := decide (depth + inner ≤ maxNestingDepth)
+
 /-! ## the parser -/
 
 /-- `require_token_type` -/
@@ -216,15 +253,18 @@ def optionalName : List ATok → Option (List Char) × List ATok
   | .ident s :: rest => (some s, rest)
   | toks => (none, toks)
 
-/-- the `while let Some(OpenSquareBracket) = peek()` loop of `parse_aml_member` -/
-def arrayDims (base : Spec) : List ATok → R Spec
+/-- the `while let Some(OpenSquareBracket) = peek()` loop of `parse_aml_member`; `levels` is the variable of that
+    name (the depth of `base`): `levels += 1; check_nesting(depth, levels)?` comes before the bracket is consumed -/
+def arrayDims (depth levels : Nat) (base : Spec) : List ATok → R Spec
   | .osquare :: rest =>
-    match rest with
-    | .constant c :: rest' =>
-      match rest' with
-      | .csquare :: rest'' => arrayDims (.array base (dimOf c)) rest''
+    if checkNesting depth (levels + 1) then
+      match rest with
+      | .constant c :: rest' =>
+        match rest' with
+        | .csquare :: rest'' => arrayDims depth (levels + 1) (.array base (dimOf c)) rest''
+        | _ => .err
       | _ => .err
-    | _ => .err
+    else .err
   | toks => .ok base toks
 
 /-- the `loop` of `parse_aml_type_enum` behind the opening bracket -/
@@ -288,110 +328,126 @@ def tagClose (rep : Bool) (t : Tagged Spec) (rest : List ATok) : R (Tagged Spec)
     | _ => .err
   else .ok t rest
 
+-- (the explicit `termination_by structural fuel`: with two `Nat` parameters per function Lean does not search for the
+-- structural argument by itself and would fall back to well-founded recursion, which `decide` cannot unfold)
 mutual
 
-/-- `parse_aml_type`; `tok` is the token already consumed -/
-def type_ (fuel : Nat) (types : TypeSet) (tok : ATok) (toks : List ATok) : R (Option (List Char) × Spec) :=
+/-- `parse_aml_type`; `tok` is the token already consumed; `depth` = the number of enclosing levels -/
+def type_ (fuel : Nat) (types : TypeSet) (depth : Nat) (tok : ATok) (toks : List ATok) : R (Option (List Char) × Spec) :=
   match fuel with
   | 0 => .fuel
   | fuel + 1 =>
-    match tok with
-    | .kchar => .ok (none, .int 0) toks
-    | .kint => .ok (none, .int 1) toks
-    | .klong => .ok (none, .int 2) toks
-    | .kint64 => .ok (none, .int 3) toks
-    | .kuchar => .ok (none, .int 4) toks
-    | .kuint => .ok (none, .int 5) toks
-    | .kulong => .ok (none, .int 6) toks
-    | .kuint64 => .ok (none, .int 7) toks
-    | .kfloat => .ok (none, .float) toks
-    | .kdouble => .ok (none, .double) toks
-    | .kenum => typeEnum types toks
-    | .kstruct =>
-      -- `parse_aml_type_struct`
-      let (name, toks) := optionalName toks
-      match toks with
-      | .ocurly :: rest =>
-        match structLoop fuel types [] rest with
-        | .ok items rest' => .ok (name, .struct items) rest'
-        | .err => .err
-        | .fuel => .fuel
-      | _ =>
-        match name with
-        | some n =>
-          match lookupKV types.structs n with
-          | some (.struct items) => .ok (some n, .struct items) toks
-          | _ => .err
-        | none => .err
-    | .ktaggedstruct =>
-      -- `parse_aml_type_taggedstruct`
-      let (name, toks) := optionalName toks
-      match toks with
-      | .ocurly :: rest =>
-        match taggedLoop fuel types true [] rest with
-        | .ok items rest' => .ok (name, .taggedStruct items) rest'
-        | .err => .err
-        | .fuel => .fuel
-      | _ =>
-        match name with
-        | some n =>
-          match lookupKV types.taggedstructs n with
-          | some (.taggedStruct items) => .ok (some n, .taggedStruct items) toks
-          | _ => .err
-        | none => .err
-    | .ktaggedunion =>
-      -- `parse_aml_type_taggedunion`
-      let (name, toks) := optionalName toks
-      match toks with
-      | .ocurly :: rest =>
-        match taggedLoop fuel types false [] rest with
-        | .ok items rest' => .ok (name, .taggedUnion items) rest'
-        | .err => .err
-        | .fuel => .fuel
-      | _ =>
-        match name with
-        | some n =>
-          match lookupKV types.taggedunions n with
-          | some (.taggedUnion items) => .ok (some n, .taggedUnion items) toks
-          | _ => .err
-        | none => .err
-    | _ => .err
+    -- "every type is at least one level deep": `check_nesting(depth, 1)?`
+    if checkNesting depth 1 then
+      match tok with
+      | .kchar => .ok (none, .int 0) toks
+      | .kint => .ok (none, .int 1) toks
+      | .klong => .ok (none, .int 2) toks
+      | .kint64 => .ok (none, .int 3) toks
+      | .kuchar => .ok (none, .int 4) toks
+      | .kuint => .ok (none, .int 5) toks
+      | .kulong => .ok (none, .int 6) toks
+      | .kuint64 => .ok (none, .int 7) toks
+      | .kfloat => .ok (none, .float) toks
+      | .kdouble => .ok (none, .double) toks
+      | .kenum => typeEnum types toks
+      | .kstruct =>
+        -- `parse_aml_type_struct`
+        let (name, toks) := optionalName toks
+        match toks with
+        | .ocurly :: rest =>
+          match structLoop fuel types (depth + 1) [] rest with
+          | .ok items rest' => .ok (name, .struct items) rest'
+          | .err => .err
+          | .fuel => .fuel
+        | _ =>
+          match name with
+          | some n =>
+            match lookupKV types.structs n with
+            | some (.struct items) =>
+              if checkNesting depth (specDepth (.struct items)) then .ok (some n, .struct items) toks else .err
+            | _ => .err
+          | none => .err
+      | .ktaggedstruct =>
+        -- `parse_aml_type_taggedstruct`
+        let (name, toks) := optionalName toks
+        match toks with
+        | .ocurly :: rest =>
+          match taggedLoop fuel types (depth + 1) true [] rest with
+          | .ok items rest' => .ok (name, .taggedStruct items) rest'
+          | .err => .err
+          | .fuel => .fuel
+        | _ =>
+          match name with
+          | some n =>
+            match lookupKV types.taggedstructs n with
+            | some (.taggedStruct items) =>
+              if checkNesting depth (specDepth (.taggedStruct items)) then .ok (some n, .taggedStruct items) toks
+              else .err
+            | _ => .err
+          | none => .err
+      | .ktaggedunion =>
+        -- `parse_aml_type_taggedunion`
+        let (name, toks) := optionalName toks
+        match toks with
+        | .ocurly :: rest =>
+          match taggedLoop fuel types (depth + 1) false [] rest with
+          | .ok items rest' => .ok (name, .taggedUnion items) rest'
+          | .err => .err
+          | .fuel => .fuel
+        | _ =>
+          match name with
+          | some n =>
+            match lookupKV types.taggedunions n with
+            | some (.taggedUnion items) =>
+              if checkNesting depth (specDepth (.taggedUnion items)) then .ok (some n, .taggedUnion items) toks
+              else .err
+            | _ => .err
+          | none => .err
+      | _ => .err
+    else .err
+termination_by structural fuel
 
-/-- the `loop` of `parse_aml_type_struct` and the closing bracket; `acc` newest first -/
-def structLoop (fuel : Nat) (types : TypeSet) (acc : List Spec) (toks : List ATok) : R (List Spec) :=
+/-- the `loop` of `parse_aml_type_struct` and the closing bracket; `acc` newest first; `depth` is the depth of the
+    members (`depth + 1` of the struct) -/
+def structLoop (fuel : Nat) (types : TypeSet) (depth : Nat) (acc : List Spec) (toks : List ATok) : R (List Spec) :=
   match fuel with
   | 0 => .fuel
   | fuel + 1 =>
-    match member fuel types toks with
+    match member fuel types depth toks with
     | .ok m rest =>
       match rest with
       | .semicolon :: rest1 =>
         match rest1 with
         | .ccurly :: rest2 => .ok (m :: acc).reverse rest2
-        | _ => structLoop fuel types (m :: acc) rest1
+        | _ => structLoop fuel types depth (m :: acc) rest1
       | _ => .err
     | .err => .err
     | .fuel => .fuel
+termination_by structural fuel
 
-/-- the `loop` of `parse_aml_type_taggedstruct` / `parse_aml_type_taggedunion` and the closing bracket -/
-def taggedLoop (fuel : Nat) (types : TypeSet) (allowRepeat : Bool) (acc : List (Tagged Spec)) (toks : List ATok) :
-    R (List (Tagged Spec)) :=
+/-- the `loop` of `parse_aml_type_taggedstruct` / `parse_aml_type_taggedunion` and the closing bracket; `depth` is the
+    depth of the members (`depth + 1` of the tagged type) -/
+def taggedLoop (fuel : Nat) (types : TypeSet) (depth : Nat) (allowRepeat : Bool) (acc : List (Tagged Spec))
+    (toks : List ATok) : R (List (Tagged Spec)) :=
   match fuel with
   | 0 => .fuel
   | fuel + 1 =>
-    match taggedMember fuel types allowRepeat toks with
+    match taggedMember fuel types depth allowRepeat toks with
     | .ok m rest =>
       match rest with
       | .semicolon :: rest1 =>
         match rest1 with
         | .ccurly :: rest2 => .ok (insertTagged m acc) rest2
-        | _ => taggedLoop fuel types allowRepeat (insertTagged m acc) rest1
+        | _ => taggedLoop fuel types depth allowRepeat (insertTagged m acc) rest1
       | _ => .err
     | .err => .err
     | .fuel => .fuel
+termination_by structural fuel
 
 /-- `parse_aml_taggedmember` -/
-def taggedMember (fuel : Nat) (types : TypeSet) (allowRepeat : Bool) (toks : List ATok) : R (Tagged Spec) :=
+def taggedMember (fuel : Nat) (types : TypeSet) (depth : Nat) (allowRepeat : Bool) (toks : List ATok) :
+    R (Tagged Spec) :=
   match fuel with
   | 0 => .fuel
   | fuel + 1 =>
@@ -406,20 +462,21 @@ def taggedMember (fuel : Nat) (types : TypeSet) (allowRepeat : Bool) (toks : Lis
         | some (isBlock, tok, rest) =>
           match tok with
           | .tag tg =>
-            match tagInner (taggedDef fuel types) rest with
+            match tagInner (taggedDef fuel types depth) rest with
             | .ok item rest1 => tagClose rep ⟨tg, item, isBlock, rep⟩ rest1
             | .err => .err
             | .fuel => .fuel
           | _ => .err
+termination_by structural fuel
 
-/-- `parse_aml_tagged_def` -/
-def taggedDef (fuel : Nat) (types : TypeSet) (toks : List ATok) : R Spec :=
+/-- `parse_aml_tagged_def`: "the ( )* around the member is a level of its own" -/
+def taggedDef (fuel : Nat) (types : TypeSet) (depth : Nat) (toks : List ATok) : R Spec :=
   match fuel with
   | 0 => .fuel
   | fuel + 1 =>
     match toks with
     | .oround :: rest =>
-      match member fuel types rest with
+      match member fuel types (depth + 1) rest with
       | .ok m rest1 =>
         match rest1 with
         | .cround :: rest2 =>
@@ -429,20 +486,22 @@ def taggedDef (fuel : Nat) (types : TypeSet) (toks : List ATok) : R Spec :=
         | _ => .err
       | .err => .err
       | .fuel => .fuel
-    | _ => member fuel types toks
+    | _ => member fuel types depth toks
+termination_by structural fuel
 
 /-- `parse_aml_member` -/
-def member (fuel : Nat) (types : TypeSet) (toks : List ATok) : R Spec :=
+def member (fuel : Nat) (types : TypeSet) (depth : Nat) (toks : List ATok) : R Spec :=
   match fuel with
   | 0 => .fuel
   | fuel + 1 =>
     match toks with
     | [] => .err
     | tok :: rest =>
-      match type_ fuel types tok rest with
-      | .ok (_, base) rest1 => arrayDims base rest1
+      match type_ fuel types depth tok rest with
+      | .ok (_, base) rest1 => arrayDims depth (specDepth base) base rest1
       | .err => .err
       | .fuel => .fuel
+termination_by structural fuel
 
 end
 
@@ -459,37 +518,37 @@ def declStep (fuel : Nat) (types : TypeSet) (ifdata : Option Spec) (tok : ATok) 
   | .kblock =>
     match rest with
     | .tag tg :: rest1 =>
-      match taggedDef fuel types rest1 with
+      match taggedDef fuel types 0 rest1 with
       | .ok blk rest2 => .ok (types, if tg = "IF_DATA".toList then some blk else ifdata) rest2
       | .err => .err
       | .fuel => .fuel
     | _ => .err
   | .ktaggedstruct =>
-    match type_ fuel types tok rest with
+    match type_ fuel types 0 tok rest with
     | .ok (some name, typ) rest1 => .ok ({ types with taggedstructs := insertKV name typ types.taggedstructs }, ifdata) rest1
     | .ok (none, _) rest1 => .ok (types, ifdata) rest1
     | .err => .err
     | .fuel => .fuel
   | .ktaggedunion =>
-    match type_ fuel types tok rest with
+    match type_ fuel types 0 tok rest with
     | .ok (some name, typ) rest1 => .ok ({ types with taggedunions := insertKV name typ types.taggedunions }, ifdata) rest1
     | .ok (none, _) rest1 => .ok (types, ifdata) rest1
     | .err => .err
     | .fuel => .fuel
   | .kenum =>
-    match type_ fuel types tok rest with
+    match type_ fuel types 0 tok rest with
     | .ok (some name, typ) rest1 => .ok ({ types with enums := insertKV name typ types.enums }, ifdata) rest1
     | .ok (none, _) rest1 => .ok (types, ifdata) rest1
     | .err => .err
     | .fuel => .fuel
   | .kstruct =>
-    match type_ fuel types tok rest with
+    match type_ fuel types 0 tok rest with
     | .ok (some name, typ) rest1 => .ok ({ types with structs := insertKV name typ types.structs }, ifdata) rest1
     | .ok (none, _) rest1 => .ok (types, ifdata) rest1
     | .err => .err
     | .fuel => .fuel
   | .kchar | .kint | .klong | .kint64 | .kuchar | .kuint | .kulong | .kuint64 | .kdouble | .kfloat =>
-    match type_ fuel types tok rest with
+    match type_ fuel types 0 tok rest with
     | .ok _ rest1 => .ok (types, ifdata) rest1
     | .err => .err
     | .fuel => .fuel
